@@ -273,7 +273,7 @@ func concMix(c *ctx, nG, nOps int) {
 
 func drvRegConc(c *ctx) error {
 	switch c.mode {
-	case "mix":
+	case "childmix":
 		concMix(c, 8, c.n)
 	case "child":
 		for _, cs := range c.cases {
@@ -283,7 +283,7 @@ func drvRegConc(c *ctx) error {
 		}
 	case "childfree":
 		freeRun(c, 4, 2, c.n)
-	case "cases", "free":
+	case "cases", "free", "mix":
 		self, err := os.Executable()
 		if err != nil {
 			return err
@@ -297,6 +297,15 @@ func drvRegConc(c *ctx) error {
 			of := filepath.Join(dir, "out.ndjson")
 			cmd := exec.Command(self, append([]string{"record", "regconc", "--out", of}, args...)...)
 			if out, err := cmd.CombinedOutput(); err != nil {
+				// the Go runtime aborts a process that reads and writes a map concurrently (or misuses a
+				// lock): that is observed behaviour of the code under test, recorded as an event
+				for _, sig := range []string{"concurrent map read and map write", "concurrent map writes", "concurrent map iteration and map write", "RUnlock of unlocked RWMutex", "Unlock of unlocked RWMutex"} {
+					if bytes.Contains(out, []byte(sig)) {
+						c.emit(M{"ev": "reset", "exp": M{"free": true}, "final": M{"free": true}})
+						c.emit(M{"ev": "crash", "what": sig})
+						return nil
+					}
+				}
 				return fmt.Errorf("regconc child failed: %v: %s", err, out)
 			}
 			ob, err := ioutil.ReadFile(of)
@@ -321,11 +330,15 @@ func drvRegConc(c *ctx) error {
 					return err
 				}
 			}
-		} else {
+		} else if c.mode == "free" {
 			for i := 0; i < c.n; i++ {
 				if err := runChild("--mode", "childfree", "--n", "40", "--seed", fmt.Sprint(c.seed+int64(i))); err != nil {
 					return err
 				}
+			}
+		} else {
+			if err := runChild("--mode", "childmix", "--n", fmt.Sprint(c.n), "--seed", fmt.Sprint(c.seed)); err != nil {
+				return err
 			}
 		}
 	default:
